@@ -1,11 +1,171 @@
-//! C04 part (b): non-interference of rejected messages (placeholder until wired in).
+//! C04 part (b): non-interference. One generated script is executed twice against a fresh real node:
+//! a baseline run, and a run in which messages that the reference predicate rejects (or proposals
+//! by a wrong leader) are injected on a dedicated connection at side-stream-chosen instants. The
+//! node's emitted messages, commits and store writes must be identical.
+use crate::rig::HEv;
 use crate::runner::{Ctx, Outcome, Part};
-use crate::tape::Case;
-
-fn noop(_: &Case, _: &Ctx) -> Outcome {
-    Outcome::default()
-}
+use crate::solo::{self, render_hist, run_solo, sample_of, Knobs, Profile, SoloRun};
+use crate::tape::{fnv, Case};
+use serde_json::json;
+use crypto::{Digest, Hash as _};
+use std::collections::{BTreeMap, HashMap};
+use std::convert::TryFrom;
 
 pub fn part() -> Part {
-    Part { name: "non-interference", cfg_len: 0, tape_max: 1, quick: 0, thorough: 0, max_shrink_iters: 0, run: noop }
+    Part { name: "non-interference", cfg_len: solo::CFG_LEN, tape_max: 200, quick: 2_500, thorough: 80_000, max_shrink_iters: 150, run }
+}
+
+/// Canonical identity of a block modulo the order of its payload (the proposer drains a HashSet, so
+/// the order of digests inside the node's own proposals differs between any two runs): author,
+/// round, sorted payload, canonical identity of the parent.
+fn canon(d: &Digest, run: &SoloRun, memo: &mut HashMap<Digest, u64>) -> u64 {
+    if *d == Digest::default() {
+        return 0;
+    }
+    if let Some(v) = memo.get(d) {
+        return *v;
+    }
+    let v = match run.blocks.get(d) {
+        Some(b) => {
+            let parent = canon(&b.qc.hash, run, memo);
+            let mut payload: Vec<Vec<u8>> = b.payload.iter().map(|x| x.0.to_vec()).collect();
+            payload.sort();
+            let mut bytes = b.author.0.to_vec();
+            bytes.extend(b.round.to_le_bytes());
+            for p in payload {
+                bytes.extend(p);
+            }
+            bytes.extend(parent.to_le_bytes());
+            bytes.extend(b.qc.round.to_le_bytes());
+            fnv(&bytes) | 1
+        }
+        None => fnv(&d.0) | 1,
+    };
+    memo.insert(d.clone(), v);
+    v
+}
+
+fn signers(qc: &consensus::QC) -> Vec<String> {
+    let mut v: Vec<String> = qc.votes.iter().map(|(k, _)| k.encode_base64()).collect();
+    v.sort();
+    v
+}
+
+/// Observable behaviour of the node: per instant, the multiset of what it wrote / committed / stored,
+/// in canonical form.
+fn behaviour(run: &SoloRun) -> BTreeMap<u64, Vec<String>> {
+    use consensus::ConsensusMessage as M;
+    let mut memo = HashMap::new();
+    let mut m: BTreeMap<u64, Vec<String>> = BTreeMap::new();
+    for e in &run.hist {
+        let s = match &e.ev {
+            HEv::Out { to, msg } => match &**msg {
+                M::Propose(b) => format!(
+                    "out {} propose r{} {:x} qc(r{} {:x} {:?}) tc {:?}",
+                    to,
+                    b.round,
+                    canon(&b.digest(), run, &mut memo),
+                    b.qc.round,
+                    canon(&b.qc.hash, run, &mut memo),
+                    signers(&b.qc),
+                    b.tc.as_ref().map(|t| (t.round, { let mut v: Vec<(String, u64)> = t.votes.iter().map(|(k, _, r)| (k.encode_base64(), *r)).collect(); v.sort(); v }))
+                ),
+                M::Vote(v) => format!("out {} vote r{} {:x} by {}", to, v.round, canon(&v.hash, run, &mut memo), v.author.encode_base64()),
+                M::Timeout(t) => format!("out {} timeout r{} hq(r{} {:x} {:?}) by {}", to, t.round, t.high_qc.round, canon(&t.high_qc.hash, run, &mut memo), signers(&t.high_qc), t.author.encode_base64()),
+                M::TC(t) => format!("out {} tc r{} {:?}", to, t.round, { let mut v: Vec<(String, u64)> = t.votes.iter().map(|(k, _, r)| (k.encode_base64(), *r)).collect(); v.sort(); v }),
+                M::SyncRequest(d, k) => format!("out {} sync {:x} {}", to, canon(d, run, &mut memo), k.encode_base64()),
+            },
+            // retried batch requests go to randomly chosen peers (SmallRng::from_entropy): the
+            // destination is not part of the comparison
+            HEv::MempoolOut { msg, bytes, .. } if matches!(**msg, mempool::MempoolMessage::BatchRequest(..)) => format!("mempool-out batch-request {:016x}", fnv(bytes)),
+            HEv::MempoolOut { to, bytes, .. } => format!("mempool-out {} {:016x}", to, fnv(bytes)),
+            HEv::Commit(b) => format!("commit {:x}", canon(&b.digest(), run, &mut memo)),
+            HEv::StoreWrite(k) => {
+                let d = Digest::try_from(&k[..]).ok();
+                match d {
+                    Some(d) if run.blocks.contains_key(&d) => format!("store block {:x}", canon(&d, run, &mut memo)),
+                    _ => format!("store {:016x}", fnv(k)),
+                }
+            }
+            _ => continue,
+        };
+        m.entry(e.t_us).or_default().push(s);
+    }
+    for v in m.values_mut() {
+        v.sort();
+    }
+    m
+}
+
+/// Two inputs in one instant (or a timer expiry together with an input) make the order in which the
+/// node handles them depend on its seeded select! fairness, which an extra message perturbs.
+fn ambiguous(run: &SoloRun) -> bool {
+    let mut inputs: BTreeMap<u64, u32> = BTreeMap::new();
+    let mut timeouts: Vec<u64> = Vec::new();
+    let me = run.w.pk(run.sut);
+    for e in &run.hist {
+        match &e.ev {
+            HEv::In { .. } | HEv::InJunk { .. } | HEv::MempoolIn { .. } => *inputs.entry(e.t_us).or_insert(0) += 1,
+            HEv::Out { msg, .. } => {
+                if let consensus::ConsensusMessage::Timeout(t) = &**msg {
+                    if t.author == me {
+                        timeouts.push(e.t_us);
+                    }
+                }
+            }
+            _ => {}
+        }
+    }
+    inputs.values().any(|c| *c > 1) || timeouts.iter().any(|t| inputs.contains_key(t))
+}
+
+fn run(case: &Case, _ctx: &Ctx) -> Outcome {
+    let seed = ((case.cfg.get(6).copied().unwrap_or(1) as u64) << 32) | case.cfg.get(7).copied().unwrap_or(1) as u64;
+    let base = Knobs { serial: true, inject: 1, inject_seed: seed, max_steps: 25, ..Knobs::default() };
+    let inj = Knobs { inject: 2, ..base.clone() };
+    let a = run_solo(case, Profile::Voting, &base);
+    let mut out = Outcome::default();
+    out.sample = sample_of(&a);
+    if a.panics.iter().any(|p| p.node == a.sut_id) {
+        out.class("skipped:node-panicked");
+        return out;
+    }
+    if a.injected.is_empty() {
+        out.class("no-injection-point");
+        return out;
+    }
+    if ambiguous(&a) {
+        out.class("discarded:ambiguous-baseline");
+        return out;
+    }
+    let b = run_solo(case, Profile::Voting, &inj);
+    if let Some(o) = out.sample.as_object_mut() {
+        o.insert("injected".into(), json!(b.injected));
+    }
+    for n in &b.injected {
+        out.class(&format!("injected:{}", n));
+    }
+    if a.injected != b.injected {
+        // the script itself reacted to a difference: the injected run diverged before this point
+        out.class("script-diverged");
+    }
+    let (ba, bb) = (behaviour(&a), behaviour(&b));
+    if ba != bb {
+        // first differing instant
+        let mut first = None;
+        for t in ba.keys().chain(bb.keys()) {
+            if ba.get(t) != bb.get(t) {
+                first = Some(first.map_or(*t, |f: u64| f.min(*t)));
+            }
+        }
+        out.violate(
+            "rejected-message-changed-behaviour",
+            format!("the node behaves differently with the rejected messages {:?} injected; first difference at t={} us", b.injected, first.unwrap_or(0)),
+            json!({"n": a.w.n, "stakes": a.w.stakes, "sut": a.sut, "script": a.steps, "injected": b.injected,
+                   "baseline": render_hist(&a, 250), "history": render_hist(&b, 250)}),
+        );
+    }
+    out.nontrivial = true;
+    out.fingerprint = fnv(format!("{:?}{:?}", b.injected, a.stats).as_bytes()) ^ crate::tape::fnv_case(case);
+    out
 }
